@@ -226,3 +226,246 @@ def r_verdict_space(rep, facts, rid='C09/R11', length=3, alphabet=8):
             else:
                 rep.bad(R, 'further documents', f'{bad} documents of the space get another verdict or tree than the specification gives')
     rep.info(R, f'{n_acc} documents accepted with the same tree, {n_ref} refused, as the reference decoder does')
+
+
+def r_spans(rep, facts, rid='C14/R14'):
+    """the spans the parser leaves in the tree, read through /repo's own accessors, against the source text"""
+    R = rep.rule(rid, 'spans point at the text of each item: the model documents are taken through the semantic actions of the grammar rules and ParseState in the evaluator, then Key::span, '
+                 'Item::span (values, tables, arrays of tables) of the current tree are evaluated on everything in the tree: every span lies inside the document with start <= end, a child\'s '
+                 'span lies inside its parent table\'s, the slice of a key reads back (Python\'s tomllib) as that key and the slice of a value as that value, a table\'s span begins at its '
+                 'header; after ImDocument::into_mut every span is gone', floor=20)
+    OK_ = 'core::option::Option::Some'
+
+    def span_of(p, fn, v):
+        r = deref(p.fn(fn, v))
+        if isinstance(r, tuple) and len(r) == 3 and r[1] == OK_:
+            a = deref(r[2][0])
+            return (a[1], a[2] + 1)
+        return None
+    for name, text in ROUND_TRIP:
+        try:
+            p = Pipeline(facts)
+            doc = p.document(text)
+            bad = []
+            n = [0]
+
+            def walk_table(t, parent, path):
+                for k, v in deref(t[2]['items']).pairs:
+                    kn = keyname(k)
+                    here = path + [kn]
+                    ks = span_of(p, 'toml_edit::key::Key::span', k)
+                    vs = span_of(p, 'toml_edit::item::Item::span', v)
+                    dv = deref(v)
+                    kind = dv[1].rsplit('::', 1)[-1]
+                    n[0] += 1
+                    for what, s in (('key', ks), (kind, vs)):
+                        if s is None:
+                            # (a table that no header and no key-value pair of its own defines — implied by a longer header or a dotted key — has no text of its own)
+                            if not (what == 'Table' and deref(dv[2][0])[2].get('implicit')) and what != 'None':
+                                bad.append(f'{".".join(here)}: the {what} has no span')
+                            continue
+                        if not (0 <= s[0] <= s[1] <= len(text)):
+                            bad.append(f'{".".join(here)}: the span {s} of the {what} is not a range of the document')
+                    if ks:
+                        try:
+                            if tomllib.loads(text[ks[0]:ks[1]] + ' = 1') != {kn: 1}:
+                                bad.append(f'{".".join(here)}: the key span {ks} covers {text[ks[0]:ks[1]]!r}')
+                        except tomllib.TOMLDecodeError:
+                            bad.append(f'{".".join(here)}: the key span {ks} covers {text[ks[0]:ks[1]]!r}, which is not a key')
+                    if kind == 'Value' and vs:
+                        try:
+                            if tomllib.loads('v = ' + text[vs[0]:vs[1]]) != {'v': plain(v)}:
+                                bad.append(f'{".".join(here)}: the value span {vs} covers {text[vs[0]:vs[1]]!r}')
+                        except tomllib.TOMLDecodeError:
+                            bad.append(f'{".".join(here)}: the value span {vs} covers {text[vs[0]:vs[1]]!r}, which is not a value')
+                        if parent and not (parent[0] <= vs[0] and vs[1] <= parent[1]):
+                            bad.append(f'{".".join(here)}: the value span {vs} is outside its table\'s span {parent}')
+                    if kind == 'Table':
+                        tb = deref(dv[2][0])
+                        if vs and not tb[2].get('dotted') and not text[vs[0]:].startswith('['):
+                            bad.append(f'{".".join(here)}: the table span {vs} does not begin at a header ({text[vs[0]:vs[0] + 8]!r})')
+                        walk_table(tb, vs if vs and not tb[2].get('dotted') else parent, here)
+                    if kind == 'ArrayOfTables':
+                        for i, el in enumerate(deref(deref(dv[2][0])[2]['values']).items):
+                            es = span_of(p, 'toml_edit::item::Item::span', el)
+                            el = deref(el)
+                            el = deref(el[2][0]) if el[0] == 'ctor' else el
+                            if es is None or not text[es[0]:].startswith('[['):
+                                bad.append(f'{".".join(here)}[{i}]: the element span {es} does not begin at its [[header]]')
+                            if es and vs and not (vs[0] <= es[0] and es[1] <= vs[1]):
+                                bad.append(f'{".".join(here)}[{i}]: the element span {es} is outside the array\'s span {vs}')
+                            walk_table(el, es, here + [str(i)])
+            root = deref(doc[2]['root'])
+            walk_table(deref(root[2][0]), None, [])
+            # made editable: no span survives
+            im = [d for d in facts.bodies if d.startswith('toml_edit::document::ImDocument') and d.endswith('::into_mut')]
+            dm = p.fn(im[0], doc)
+            stale = []
+
+            def walk_gone(t, path):
+                if span_of(p, 'toml_edit::table::Table::span', t) is not None:
+                    stale.append('.'.join(path) or '<root>')
+                for k, v in deref(t[2]['items']).pairs:
+                    here = path + [keyname(k)]
+                    if span_of(p, 'toml_edit::key::Key::span', k) is not None or span_of(p, 'toml_edit::item::Item::span', v) is not None:
+                        stale.append('.'.join(here))
+                    dv = deref(v)
+                    if dv[1].endswith('::Table'):
+                        walk_gone(deref(dv[2][0]), here)
+                    if dv[1].endswith('::ArrayOfTables'):
+                        for i, el in enumerate(deref(deref(dv[2][0])[2]['values']).items):
+                            el = deref(el)
+                            walk_gone(deref(el[2][0]) if el[0] == 'ctor' else el, here + [str(i)])
+            walk_gone(deref(deref(dm[2]['root'])[2][0]), [])
+        except Refused as ex:
+            rep.bad(R, name, f'the valid model document `{name}` is refused: {ex}')
+            continue
+        except EvalPanic as ex:
+            rep.bad(R, name, f'reading the spans of the model document `{name}` panics: {ex}')
+            continue
+        except (Unanalysable, TypeError, KeyError, IndexError, AttributeError, ValueError) as ex:
+            rep.incomplete(R, name, f'cannot evaluate the spans of the model document `{name}`: {type(ex).__name__}: {ex}')
+            continue
+        rep.check(R, name, not bad, f'{n[0]} entries', f'in the model document `{name}` ({text!r:.100}): ' + '; '.join(bad[:3]))
+        rep.check(R, name + '|editable', not stale, 'no span left after into_mut', f'after ImDocument::into_mut of the model document `{name}` a span is still reported for {stale[:4]}')
+
+
+EDIT_DOC = ('# head\n'
+            'a = 1 # ca\n'
+            'b = "two"   # cb\n'
+            '\n'
+            '[t]   # ct\n'
+            'x = 1\n'
+            '  y  =  2  # cy\n'
+            'z.w = true\n'
+            '\n'
+            '[[arr]]\n'
+            'n = 1 # first\n'
+            '[[arr]]\n'
+            'n = 2 # second\n'
+            '\n'
+            '[ u . v ]\n'
+            'k = "v"\n'
+            '# tail\n')
+
+
+def r_edits(rep, facts, rid='C08/R10'):
+    """a parsed document is edited through the public API in the evaluator and printed: the data changes as asked, the untouched lines stay verbatim"""
+    import copy
+    R = rep.rule(rid, 'an edit changes what was asked and nothing else: a model document (comments, odd spacing, a table, dotted keys, an array of tables, a padded dotted header) is taken '
+                 'through the parser\'s semantic actions and ImDocument::into_mut in the evaluator, edited by evaluating one public operation of the current tree (Table::remove / insert of '
+                 'a new and of an existing key / clear / sort_values, at the root and in a sub-table, removal of a whole table and of an array of tables, ArrayOfTables::remove), and printed '
+                 'by evaluating Display for DocumentMut: the text must decode (Python\'s tomllib) to the original data with the same edit applied to a plain ordered tree, and every source '
+                 'line that belongs to an untouched entry must still be there verbatim', floor=10)
+    T_ = 'toml_edit::table::Table::'
+    ref0 = tomllib.loads(EDIT_DOC)
+
+    def item(p, n):
+        return ('ctor', I + 'Value', (p.fn("<toml_edit::value::Value as core::convert::From<i64>>::from", n),))
+
+    def sub(root, *names):
+        t = root
+        for nm in names:
+            m = deref(t[2]['items'])
+            it = deref(m.pairs[m.find(nm)][1])
+            t = deref(it[2][0])
+        return t
+
+    def ed_remove(key, *path):
+        def run(p, root):
+            p.fn(T_ + 'remove', sub(root, *path), key)
+
+        def ref(d):
+            t = d
+            for nm in path:
+                t = t[nm]
+            del t[key]
+        return run, ref
+
+    def ed_insert(key, val, *path):
+        def run(p, root):
+            p.fn(T_ + 'insert', sub(root, *path), key, item(p, val))
+
+        def ref(d):
+            t = d
+            for nm in path:
+                t = t[nm]
+            t[key] = val
+        return run, ref
+
+    def ed_clear(*path):
+        return (lambda p, root: p.fn(T_ + 'clear', sub(root, *path))), (lambda d: sub_ref(d, path).clear())
+
+    def sub_ref(d, path):
+        for nm in path:
+            d = d[nm]
+        return d
+
+    def ed_sort(*path):
+        def ref(d):
+            t = sub_ref(d, path)
+            items = sorted(t.items())
+            t.clear()
+            t.update(items)
+        return (lambda p, root: p.fn(T_ + 'sort_values', sub(root, *path))), ref
+
+    def ed_aot_remove(i):
+        def run(p, root):
+            m = deref(root[2]['items'])
+            a = deref(deref(m.pairs[m.find('arr')][1])[2][0])
+            p.fn('toml_edit::array_of_tables::ArrayOfTables::remove', a, i)
+        return run, (lambda d: d['arr'].pop(i))
+    LINES = EDIT_DOC.splitlines()
+    # (label, edit, lines of the source that the edit may touch)
+    edits = [('remove `a` at the root', ed_remove('a'), ['# head', 'a = 1 # ca']),          # (the comment above an entry is part of the entry)
+             ('remove `x` in [t]', ed_remove('x', 't'), ['x = 1']),
+             ('remove the dotted `z` in [t]', ed_remove('z', 't'), ['z.w = true']),
+             ('insert a new key at the root', ed_insert('c', 3), []),
+             ('insert over the existing key `b`', ed_insert('b', 9), ['b = "two"   # cb']),
+             ('insert a new key in [t]', ed_insert('q', 7, 't'), []),
+             ('insert over the existing key `y` in [t]', ed_insert('y', 8, 't'), ['  y  =  2  # cy']),
+             ('remove the table `t`', ed_remove('t'), ['[t]   # ct', 'x = 1', '  y  =  2  # cy', 'z.w = true', '']),
+             ('remove the array of tables', ed_remove('arr'), ['[[arr]]', 'n = 1 # first', 'n = 2 # second', '']),
+             ('remove the first element of the array of tables', ed_aot_remove(0), ['[[arr]]', 'n = 1 # first', '']),
+             ('remove the second element of the array of tables', ed_aot_remove(1), ['[[arr]]', 'n = 2 # second', '']),
+             ('clear [t]', ed_clear('t'), ['x = 1', '  y  =  2  # cy', 'z.w = true', '']),
+             ('sort the values of [t]', ed_sort('t'), []),
+             ('sort the values of the root', ed_sort(), []),
+             ('remove `k` below the padded header', ed_remove('k', 'u', 'v'), ['k = "v"'])]
+    for label, (run, refedit), touched in edits:
+        try:
+            p = Pipeline(facts)
+            doc = p.document(EDIT_DOC)
+            im = [d for d in facts.bodies if d.startswith('toml_edit::document::ImDocument') and d.endswith('::into_mut')]
+            dm = p.fn(im[0], doc)
+            root = deref(deref(dm[2]['root'])[2][0])
+            run(p, root)
+            disp = facts.method('core::fmt::Display', 'toml_edit::document::DocumentMut', 'fmt')
+            n0 = len(p.it.calls)
+            p.it.apply_fn(facts.body(disp), [dm, ('formatter',)])
+            out = p.it.text(n0)
+        except Refused as ex:
+            rep.bad(R, label, f'the model document is refused: {ex}')
+            continue
+        except EvalPanic as ex:
+            rep.bad(R, label, f'{label}: the operation or the printer panics: {ex}')
+            continue
+        except (Unanalysable, TypeError, KeyError, IndexError, AttributeError, ValueError) as ex:
+            rep.incomplete(R, label, f'cannot evaluate `{label}` on the model document: {type(ex).__name__}: {ex}')
+            continue
+        want = copy.deepcopy(ref0)
+        refedit(want)
+        try:
+            got = tomllib.loads(out)
+        except tomllib.TOMLDecodeError as ex:
+            rep.bad(R, label, f'after `{label}` the document prints as text that is not valid TOML ({ex}): {out!r:.300}')
+            continue
+        from .rules_print import ordered
+        # (sections keep their place in the text: a new root value is printed before them, and sorting the root's values does not move them)
+        if got != want or (ordered(got) != ordered(want) and not label.startswith('insert a new key at the root') and label != 'sort the values of the root'):
+            rep.bad(R, label, f'after `{label}` the document prints as {out!r:.300}, which decodes to {got!r:.200}; the edit on a plain ordered tree gives {want!r:.200}')
+            continue
+        outl = out.splitlines()
+        lost = [l for l in LINES if l not in touched and l.strip() and l not in outl and not (l.startswith('[[') and '[[arr]]' in touched)]
+        rep.check(R, label, not lost, f'{len(out)} bytes, data as edited, {len([l for l in LINES if l.strip()]) - len(touched)} untouched lines verbatim',
+                  f'after `{label}` the source line(s) {lost[:3]} of untouched entries are no longer in the printed text {out!r:.300}')
